@@ -27,6 +27,7 @@ pub struct C02;
 pub fn profile(tier: Tier) -> Profile {
     let mut p = Profile::base(if tier == Tier::Quick { 40 } else { 120 });
     p.w_reopen = 2;
+    p.big_batches = true;
     p.small_cache = true;
     p.huge_payload = tier == Tier::Thorough;
     p.big_read_buf = tier == Tier::Thorough;
